@@ -2,7 +2,7 @@ import MdsVerif.Drv.Core
 import MdsVerif.Drv.C05
 import MdsVerif.Model.Cache
 import MdsVerif.Spec.LruRef
-import MdsVerif.Proofs.Cache
+import MdsVerif.Proofs.CacheDefs
 /-!
 Driver stream `C08`: sequential `cache.Cache` histories on `Model.Cache.step`
 (over the heap configuration regenerated from heapq.go) against the recency
